@@ -473,6 +473,30 @@ fn check_case(c: &Case) -> Outcome {
             ));
         }
     }
+    // 2b. tag spelling: the verbatim form `!<tag:yaml.org,2002:T>` is the tag `!!T` ("interpreted
+    // from its text, style, tag ..." - the tag, not the way it is written)
+    if matches!(c.tag, Tag::Str | Tag::Int | Tag::Float | Tag::Bool | Tag::Null | Tag::Binary) {
+        let short = c.tag.text();
+        let verbatim = format!("!<tag:yaml.org,2002:{}>", &short[2..]);
+        let doc_v = docs[0].replacen(short, &verbatim, 1);
+        if doc_v != docs[0] && doc_v.starts_with("!<") {
+            for ob in 0..16u8 {
+                let o = Opt::from_bits(ob);
+                let g = run(&doc_v, c.target, o, false, &mut None);
+                if g != got[ob as usize][0] {
+                    return Outcome::Fail(format!(
+                        "tag spelling: {head}: text {:?} options [{}]: {:?} gives {}, {:?} gives {}",
+                        c.text,
+                        o.name(),
+                        docs[0],
+                        show(&got[ob as usize][0], &docs[0], c.target, o, false),
+                        doc_v,
+                        show(&g, &doc_v, c.target, o, false)
+                    ));
+                }
+            }
+        }
+    }
     // 3. each option changes acceptance only where and how documented
     for bit in [BIT_STRICT, BIT_NO_SCHEMA, BIT_LEGACY, BIT_IGNORE_BIN] {
         let rel = relation(c, bit);
